@@ -854,10 +854,8 @@ def check(c):
                       "channel-normalisation update window'); the generator enforces it and the harness reports cmn->nframe",
                       "full_utt = 0 throughout (full_utt = 1 is the batch-CMN regime, not compared against streaming)",
                       "cmn != none; acmod_set_grow(FALSE) is not reachable through the decoder API",
-                      "streaming theorems: n_mfc_alloc = 128, i.e. no full_utt = 1 utterance has enlarged the cepstrum ring of this decoder "
-                      "before; on an enlarged ring (live-buffer clamp, frames left in the ring between calls) the executable model is "
-                      "tied to the code by the correspondence run and the implementation is checked by the oracle, without a theorem; "
-                      "the batch-regime theorem holds for any ring size",
+"no assumption on the size of the cepstrum ring any more: the streaming theorems hold for every n_mfc_alloc >= 1 (a full_utt "
+                      "utterance enlarges it for good; live-buffer clamp, D62 drain loop, D66 and D67 repairs are in the model and proved)",
                       "front-end contract used as hypothesis of the theorems and checked on every run: fe_process never yields more frames than "
                       "the limit it was given; fe_end yields the pending frame iff any sample was fed in this utterance",
                       "decoder_alignment is only requested when the current segmentation contains a dictionary word (D27 is C09/C14's)"]
